@@ -75,6 +75,7 @@ class FragVM(svm.VM):
         self.events_by_child = events_by_child        # ident -> [ChildEvent, ...] in the order the failing path met them
         self.child_count = {}
         self.stores = []                              # (addr, nbytes, value, pc) in execution order
+        self.acc = []                                 # every memory access executed (kind, section, address, nbytes); rewound paths included
         self.halting_exits = set(halting_exits)
         self.end = None
         # reverse map of code label addresses (all_pre makes them distinct)
@@ -109,18 +110,22 @@ class FragVM(svm.VM):
         r = self._reg(a)
         if r is not None: return self.regs[r]
         a &= self.M
+        self.acc.append(('load', 'state', a, self.W))
         return sum(self.mem.get(a + k) << (8 * k) for k in range(self.W))
 
     def ldb(self, a):
         for base, r in self.named_rev.items():
             if base <= a < base + self.W: return (self.regs[r] >> (8 * (a - base))) & 0xFF
+        self.acc.append(('load', 'state', a & self.M, 1))
         return self.mem.get(a & self.M)
 
     def ldcw(self, a):
         a &= self.M
+        self.acc.append(('load', 'const', a, self.W))
         return sum(self.cmem.get(a + k) << (8 * k) for k in range(self.W))
 
     def ldcb(self, a):
+        self.acc.append(('load', 'const', a & self.M, 1))
         return self.cmem.get(a & self.M)
 
     def stw(self, a, v):
@@ -130,6 +135,7 @@ class FragVM(svm.VM):
         a &= self.M
         for k in range(self.W): self.mem.put(a + k, (v >> (8 * k)) & 0xFF)
         self.stores.append((a, self.W, v & self.M, self.pc))
+        self.acc.append(('store', 'state', a, self.W))
 
     def stb(self, a, v):
         for base, r in self.named_rev.items():
@@ -137,7 +143,7 @@ class FragVM(svm.VM):
                 sh = 8 * (a - base)
                 self.regs[r] = (self.regs[r] & ~(0xFF << sh) | ((v & 0xFF) << sh)) & self.M; return
         a &= self.M
-        self.mem.put(a, v); self.stores.append((a, 1, v & 0xFF, self.pc))
+        self.mem.put(a, v); self.stores.append((a, 1, v & 0xFF, self.pc)); self.acc.append(('store', 'state', a, 1))
 
     def dest(self, o):
         if o.kind != 'state':
@@ -332,6 +338,43 @@ def replay(lemma, leaf, model=None, refuted=None):
         return {'reproduced': not diffs, 'from_model': True,
                 'how': 'the text emitted by the real generator method, executed on the concrete VM from the counter-model\'s machine state (children replaced by stubs doing what the model says)',
                 'observed': state, 'disagreement_with_symbolic_leaf': diffs}
+    except NoReplay as e:
+        return {'reproduced': None, 'how': f'no concrete replay: {e}'}
+    except (svm.VMError, R.AsmSyntaxError, KeyError, z3.Z3Exception) as e:
+        return {'reproduced': None, 'how': f'no concrete replay: {type(e).__name__}: {e}'}
+
+
+def replay_access(lemma, engine, formula, cond):
+    """a refuted SAFE obligation: find a leaf of the emitted code that passes through the access, take a model of (path of that leaf and not safe),
+    execute the emitted text concretely from it and confirm that the access really happens at the address the model gives, outside every region the
+    code is entitled to at that point"""
+    try:
+        info = engine.access_of.get(id(formula))
+        if info is None:
+            return None
+        kind, section, a, n, ap, fp, extents = info
+        leaves = getattr(lemma, 'last_leaves', None) or []
+        for leaf in leaves:
+            if leaf.tag is not None or len(leaf.cond) < len(cond): continue
+            if not all(x is y or x.eq(y) for x, y in zip(leaf.cond, cond)): continue
+            model = get_model(lemma, leaf, [z3.Not(formula)])
+            if model is None: continue
+            vm = FragVM(lemma, lemma.lines, model, events_of(leaf))
+            out = vm.run_fragment()
+            addr = vm.ev(a) % vm.MOD
+            hit = (kind, section, addr, n) in vm.acc
+            regions = {}
+            if section == 'state':
+                regions['frame [ap, fp)'] = [vm.ev(ap), vm.ev(fp)]
+                for i, (lo, hi) in enumerate(list(lemma.ctx.extents) + list(extents)): regions[f'extent {i}'] = [vm.ev(lo), vm.ev(hi)]
+            else:
+                for i, (lo, hi) in enumerate(lemma.ctx.const_extents): regions[f'const extent {i}'] = [vm.ev(lo), vm.ev(hi)]
+            inside = any(lo <= addr and addr + n <= hi for lo, hi in regions.values())
+            return {'reproduced': bool(hit and not inside), 'from_model': True,
+                    'how': 'the text emitted by the real generator method, executed on the concrete VM from a counter-model of the refuted safety condition',
+                    'observed': {'access': f'{kind} of {n} {section} byte(s) at address {addr}', 'entitled_regions': regions, 'executed': hit, 'ends': [str(x) for x in out],
+                                 'entry': {r: vm.ev(lemma.entry.regs[r]) for r in lemma.entry.regs}}}
+        return None
     except NoReplay as e:
         return {'reproduced': None, 'how': f'no concrete replay: {e}'}
     except (svm.VMError, R.AsmSyntaxError, KeyError, z3.Z3Exception) as e:
